@@ -24,6 +24,20 @@ def attach(ob, prop):
     """replay a violation: facts of the counterexample that have a native predicate are confirmed against the real build;
     decision-skeleton counterexamples (no native entry point without a full server) are written out with their model."""
     cases = ob.get("cases")
+    reqs = ob.get("e2e_requests")
+    if reqs and not cases and not os.environ.get("VERIF_NO_NATIVE"):
+        # end to end: the real App of the API port (ApiCheckAuth around web_config::app_config, auth on) receives the tokenless request
+        path = native.write_replay(prop, "cweb_e2e", "requests", [], {"engine": "smt", "mode": "violation", "requests": reqs, "message": ob.get("message", "")})
+        exe, berr = native.build()
+        rr = native.run_replay(exe, path) if exe is not None else {"outcome": "error", "output": "native build failed: " + berr[-400:]}
+        ob["replay_path"] = path
+        ob["replay"] = {"path": path, "outcome": rr["outcome"], "message": rr.get("message", "")}
+        if rr["outcome"] != "reproduced":
+            ob["verdict"] = "inconclusive"
+            ob["message"] = "solver counterexample not confirmed end to end on the real App (%s): %s" % (rr["outcome"], rr.get("output", "")[-300:])
+        else:
+            ob["message"] = "%s [real App of the API port: the tokenless request is not answered 403]" % ob.get("message", "")
+        return
     if cases:
         rr = run_cases(prop, "violation", cases, ob.get("message", ""))
         ob["replay_path"] = rr["path"]
